@@ -31,7 +31,7 @@ META = dict(
     functions=['tdms.TdmsChannel.dtype', 'tdms.TdmsChannel._raw_data_dtype', 'scaling.MultiScaling.get_dtype',
                'scaling.MultiScaling._compute_scale_dtype', 'tdms.TdmsChannel.read_data', 'tdms.TdmsChannel._read_slice',
                'tdms.TdmsChannel.data', 'tdms.ChannelDataChunk._data', 'tdms.TdmsChannel.__len__', 'scaling.*.scale'],
-    bounds=dict(quick='15 raw types x 11 scale kinds (string/timestamp unscaled only) x eager/lazy; 2 segments, 2+1 values; windows '
+    bounds=dict(quick='15 raw types x 11 scale kinds (string/timestamp unscaled only) x eager/lazy, contiguous; every non-string type unscaled and Linear in interleaved layout; 2 segments, 2+1 values; windows '
                       'unbounded (lazy)', thorough='same plus zero-length channels and raw_timestamps'),
     outside=['scale graphs deeper than 1 (C13)', 'DAQmx channels beyond one raw scaler per channel', 'NumPy promotion rules themselves'],
     stubs=c04.META['stubs'],
@@ -83,8 +83,12 @@ def scale_props(kind):
     raise ValueError(kind)
 
 
-def make_shape(tcode, scale, zero=False):
+def make_shape(tcode, scale, zero=False, inter=False):
     nv = 0 if zero else 2
+    if inter:
+        # interleaved layout: equal counts per chunk, a companion of another width
+        return [s1.seg([[A, 'full', tcode, 2, scale_props(scale)], [B, 'full', 2, 2]], 1, inter=True),
+                s1.seg([[A, 'full', tcode, 1], [B, 'full', 2, 1]], 2, inter=True)]
     return [s1.seg([[A, 'full', tcode, nv, scale_props(scale)], [B, 'full', 2, 1]], 1),
             s1.seg([[A, 'full', tcode, 0 if zero else 1], [B, 'full', 2, 1]], 1 if zero else 2)]
 
@@ -112,6 +116,12 @@ def tasks(tier, seed):
         if t == 0x44:
             for mode in ('eager', 'lazy'):
                 ts.append(dict(tcode=t, scale='none', mode=mode, zero=False, raw_ts=True))
+        if t != 0x20:
+            for sc in ('none', 'Linear'):
+                if t in (0x44, 0x21) and sc != 'none':
+                    continue
+                for mode in ('eager', 'lazy'):
+                    ts.append(dict(tcode=t, scale=sc, mode=mode, zero=False, raw_ts=False, inter=True))
     return ts
 
 
@@ -391,7 +401,7 @@ def run_task(task):
         return _run_daqmx(task)
     if task.get('kind') == 'coef':
         return _run_coef(task)
-    sh = make_shape(task['tcode'], task['scale'], task['zero'])
+    sh = make_shape(task['tcode'], task['scale'], task['zero'], task.get('inter', False))
     enc = s1.build(sh)
     n = len(enc.channels[A])
     eager = task['mode'] == 'eager'
@@ -448,7 +458,7 @@ def signature(c):
             return 'C14/exception/daqmx/%s' % c.get('exc')
         return 'C14/%s/daqmx%s' % (what, '/%d' % t['variant'] if what == 'dtype-mismatch' else '')
     return 'C14/%s/%s/%s%s' % (c.get('what', ''), tm.TYPES[t['tcode']][0], t['scale'].split('+')[-1].replace('Polynomial0', 'Polynomial'),
-                               '/raw-timestamps' if t.get('raw_ts') else '')
+                               '/raw-timestamps' if t.get('raw_ts') else '')          # (layout is not part of the signature)
 
 
 def replay(art):
@@ -459,7 +469,7 @@ def replay(art):
         return _replay_daqmx(art)
     if task.get('kind') == 'coef':
         return _replay_coef(art)
-    sh = make_shape(task['tcode'], task['scale'], task['zero'])
+    sh = make_shape(task['tcode'], task['scale'], task['zero'], task.get('inter', False))
     enc = s1.build(sh)
     n = len(enc.channels[A])
     eager = task['mode'] == 'eager'
